@@ -29,6 +29,10 @@ Storage(t) == IF t.k = "enum" THEN t.base
               ELSE IF t.k = "char" THEN [k |-> "int", name |-> "char", size |-> 1, signed |-> FALSE, align |-> 1]
               ELSE t
 
+\* Whether the members of structure / union t are aligned: the mode of the cstruct object's load() call - or, for a definition
+\* loaded with another align= setting than the rest (load() takes it per call), the setting recorded in the type itself.
+Aligned(t, m) == IF "align" \in DOMAIN t THEN t.align ELSE m.align
+
 \* a pointer is stored as the configured unsigned integer type (m.ptr = its width in bytes): uint8/16/32/64 are aligned to
 \* their size, the odd widths as the library's integer types of that width are (uint24 -> 4, uint48 -> 8)
 PtrAlign(m) == IF m.ptr = 3 THEN 4 ELSE IF m.ptr = 6 THEN 8 ELSE m.ptr
@@ -58,7 +62,7 @@ SizeOf(t, m) ==
     [] t.k = "union" ->
          LET S == {SizeOf(t.fields[i].type, m) : i \in 1..Len(t.fields)} IN
          IF Dyn \in S THEN Dyn
-         ELSE LET mx == IF S = {} THEN 0 ELSE SetMax(S) IN IF m.align THEN AlignUp(mx, AlignOf(t, m)) ELSE mx
+         ELSE LET mx == IF S = {} THEN 0 ELSE SetMax(S) IN IF Aligned(t, m) THEN AlignUp(mx, AlignOf(t, m)) ELSE mx
     [] t.k = "struct" -> CLayoutFrom(t, m, 1, 0, [rem |-> 0, base |-> ""]).size
 
 \* C layout rule, field by field.
@@ -70,9 +74,9 @@ SizeOf(t, m) ==
 CLayoutFrom(t, m, i, off, bu) ==
   IF i > Len(t.fields)
   THEN [offs |-> << >>, bitpos |-> << >>, straddle |-> FALSE,
-        size |-> IF off = Dyn THEN Dyn ELSE IF m.align THEN AlignUp(off, AlignOf(t, m)) ELSE off]
+        size |-> IF off = Dyn THEN Dyn ELSE IF Aligned(t, m) THEN AlignUp(off, AlignOf(t, m)) ELSE off]
   ELSE LET f == t.fields[i]
-           a == IF m.align THEN AlignOf(f.type, m) ELSE 1
+           a == IF Aligned(t, m) THEN AlignOf(f.type, m) ELSE 1
            o == IF off = Dyn THEN Dyn ELSE AlignUp(off, a)
        IN IF f.bits > 0
           THEN LET st == Storage(f.type) IN
